@@ -176,3 +176,106 @@ Proof.
     + rewrite Est in Hl'. apply (remove_lock_locked0 x3 k r l' Hl').
     + destruct W4 as [W4 W5]. apply (Ein_wheels_eq s s' xe r); [congruence|congruence|exact Hein].
 Qed.
+
+(* ---------------------------------------------------------------- LockDB.UnLock *)
+Definition pua1 (x : db) (k : N) (r : ref) (c : cmd) : db :=
+  if l_isaof (getl x r) then fst (push_unlock_aof x k r (l_cmd (getl x r)) (Some c) true AOF_FLAG_UPDATED) else x.
+Definition ul_one (s : db) (k : N) (r : ref) (c : cmd) : db :=
+  bump (fun n => n <| n_unlock := (n_unlock n + 1)%Z |> <| n_locked := (n_locked n - 1)%Z |>)
+       (pua1 (updm (updl s r (fun l => l <| l_locked := dec8 (l_locked l) |>)) k (fun m => m <| m_locked := sub32 (m_locked m) 1 |>)) k r c).
+
+Lemma ul_body_cases s conn c k r : c_data c = None ->
+  fst (fst (ul_body s conn c k r)) =
+  if 1 <? l_locked (getl s r) then
+    if (0 <? c_rcount c) && negb (has (c_tflag c) TF_PRIORITY) then ul_one s k r c
+    else fst (release_hold (updm s k (fun m => m <| m_locked := sub32 (m_locked m) (l_locked (getl s r)) |>)) k conn c r (l_locked (getl s r)))
+  else fst (release_hold (updm s k (fun m => m <| m_locked := sub32 (m_locked m) 1 |>)) k conn c r 1).
+Proof.
+  intros Hc. unfold ul_body, ul_one, pua1. cbv zeta.
+  destruct (1 <? l_locked (getl s r)).
+  - destruct ((0 <? c_rcount c) && negb (has (c_tflag c) TF_PRIORITY)).
+    + destruct (has_udata_flag c); rewrite ?(process_data_core _ _ _ _ _ Hc); cbv iota beta;
+        match goal with |- context [l_isaof (getl ?X r)] => destruct (l_isaof (getl X r)) end;
+        try match goal with |- context [push_unlock_aof ?a1 ?a2 ?a3 ?a4 ?a5 ?a6 ?a7] => destruct (push_unlock_aof a1 a2 a3 a4 a5 a6 a7) as [s3 aev] end;
+        reflexivity.
+    + destruct (release_hold _ k conn c r (l_locked (getl s r))) as [s2 ev]. reflexivity.
+  - destruct (release_hold _ k conn c r 1) as [s2 ev]. reflexivity.
+Qed.
+
+Lemma ul_body_JR s xt xe conn c k r l m :
+  GInv s (gk xt xe k) -> aget (mgrs s) k = Some m -> aget (store s) r = Some l -> l_key l = k -> 0 < l_locked l ->
+  l_timeouted l = true -> occ r (holders m) = 1%nat -> c_data c = None -> JR s xe ->
+  JR (fst (fst (ul_body s conn c k r))) xe.
+Proof.
+  intros G Hm Hr Hkey Hd Ht Hh Hc HJ. set (g := gk xt xe k) in *.
+  destruct (ul_body_ok s xt xe conn c k r l m G Hm Hr Hkey Hd Ht Hh Hc) as [GE _].
+  destruct (gi_rec _ _ G r l Hr) as [A1 A2 A3 A4 A5 A6 A7 A8 A9 A10 A11].
+  destruct (gi_mgr _ _ G k m Hm) as [B1 B2 B3 B4 B5 B6 B7 B8 B9 Bb B10 Bc].
+  assert (Hin : In r (holders m)) by (apply occ_In; lia).
+  assert (Hsum : l_locked l <= m_locked m).
+  { pose proof (sumdepth_ge s r (holders m) Hin) as S. rewrite (getl_some _ _ _ Hr) in S.
+    unfold dlk, g, gk in B6. gs. destruct (k =? k) in B6; lia. }
+  destruct Bb as [_ Bl].
+  assert (Hfull : forall d, d = l_locked l ->
+     JR (fst (release_hold (updm s k (fun m => m <| m_locked := sub32 (m_locked m) d |>)) k conn c r d)) xe).
+  { intros d Ed. rewrite (updm_some _ _ _ _ Hm).
+    set (m1 := m <| m_locked := sub32 (m_locked m) d |>).
+    assert (Hl1 : m_locked m1 = m_locked m - d) by (unfold m1; cbn; apply sub32_sub; lia).
+    assert (G1 : GInv (setm s k m1) (gkd xt xe k (Z.of_N d) (- Z.of_N d) 0)).
+    { eapply ginv_geq; [apply (setm_scalar s g k m m1 G Hm); try (destruct m; reflexivity); [lia|right; reflexivity]|].
+      rewrite Hl1. unfold g, gk, gkd. gs.
+      match goal with |- _ = ?g0 <| g_dl := ?e1 |> <| g_cl := ?e2 |> =>
+        replace e1 with (Z.of_N d) by lia; replace e2 with (- Z.of_N d)%Z by lia end. reflexivity. }
+    assert (Hm1 : aget (mgrs (setm s k m1)) k = Some m1) by (rewrite mgrs_setm, aget_aset_same; auto).
+    assert (Hh1 : occ r (holders m1) = 1%nat) by (destruct m; exact Hh).
+    assert (J1 : JR (setm s k m1) xe) by (eapply JR_transfer_all; [exact HJ|apply NF_setm, NF_refl]).
+    apply (release_hold_JR (setm s k m1) xt xe k conn c r l d m1 G1 Hr Hkey (eq_sym Ed)); auto. lia. }
+  rewrite (ul_body_cases s conn c k r Hc) in *. rewrite (getl_some _ _ _ Hr) in *.
+  destruct (1 <? l_locked l) eqn:E1.
+  - destruct ((0 <? c_rcount c) && negb (has (c_tflag c) TF_PRIORITY)).
+    + (* one level: the record stays held *)
+      apply N.ltb_lt in E1. unfold ul_one in *.
+      set (x1 := updl s r (fun l0 => l0 <| l_locked := dec8 (l_locked l0) |>)) in *.
+      assert (T1 : TG x1 xe r).
+      { destruct (TG_of_JR s xe r l HJ Hr Hd) as [(l0 & E0 & _ & X0) C]. assert (l0 = l) by congruence. subst l0. split.
+        - exists (l <| l_locked := dec8 (l_locked l) |>). split; [unfold x1; rewrite aget_store_updl, N.eqb_refl, Hr; reflexivity|].
+          cbn. split; [rewrite dec8_pred; lia|exact X0].
+        - unfold Ein in *. unfold x1. rewrite ew_updl, el_updl. exact C. }
+      assert (N1 : NF (Some r) (Some r) s x1) by (unfold x1; apply NF_updl_T, NF_refl).
+      clearbody x1.
+      apply (JR_held_finish s _ xt xe k r GE HJ).
+      * apply NF_bump. unfold pua1. match goal with |- context [if ?b then _ else _] => destruct b end;
+          [apply NF_fst_push_unlock_aof|]; apply NF_updm; exact N1.
+      * apply TG_bump. unfold pua1. match goal with |- context [if ?b then _ else _] => destruct b end;
+          [apply TG_push_unlock_aof|]; apply TG_updm; exact T1.
+    + apply (Hfull (l_locked l) eq_refl).
+  - apply N.ltb_ge in E1. assert (E : 1 = l_locked l) by lia. apply (Hfull 1 E).
+Qed.
+
+Lemma unlock_step_JR s xt xe conn c :
+  GInv s (gk xt xe (c_key c)) -> c_data c = None -> JR s xe -> JR (fst (fst (unlock_step s conn c))) xe.
+Proof.
+  intros G Hc HJ. rewrite unlock_step_eq. cbv zeta. set (k := c_key c) in *.
+  assert (Herr : forall m s0 c0 code lrc, s0 = s -> JR (fst (fst (ul_err conn k m s0 c0 code lrc))) xe).
+  { intros m0 s0 c0 code lrc ->. unfold ul_err. cbn [fst]. eapply JR_transfer_all; [exact HJ|apply NF_bump, NF_refl]. }
+  destruct (aget (mgrs s) k) as [m|] eqn:Hm.
+  2:{ cbn [fst]. eapply JR_transfer_all; [exact HJ|apply NF_bump, NF_refl]. }
+  destruct (negb (leader s) && negb (has (c_flag c) UNLOCK_FLAG_FROM_AOF)); [apply Herr; auto|].
+  destruct (m_locked m =? 0).
+  { destruct (has (c_flag c) UNLOCK_FLAG_CANCEL_WAIT); [apply (cancel_wait_lock_JR s xt xe); auto|apply Herr; auto]. }
+  unfold ul_target. cbv zeta.
+  destruct (get_locked_lock s m (c_lockid c)) as [r|] eqn:Eg.
+  - destruct (get_locked_lock_spec s xt xe k m _ r G Hm Eg) as [l [Hr [Hkey [Hd [Hid [Ht Hh]]]]]].
+    destruct (negb (l_ack (getl s r) =? 255)); [apply Herr; auto|].
+    apply (ul_body_JR s xt xe conn c k r l m); auto.
+  - destruct (has (c_flag c) UNLOCK_FLAG_FIRST).
+    + destruct (m_cur m) as [cr|] eqn:Ec; [|apply Herr; auto].
+      destruct (negb (l_ack (getl s cr) =? 255)); [apply Herr; auto|].
+      assert (Hlkk : lkk (gk xt xe k) k = false) by (unfold lkk, gk; gs; apply andb_false_r).
+      pose proof (mo_cur _ _ _ _ (gi_mgr _ _ G k m Hm) Hlkk cr Ec) as Hl.
+      assert (Hin : In cr (holders m)) by (unfold holders, cur_list; rewrite Ec; simpl; auto).
+      destruct (holder_facts s _ k m cr G eq_refl eq_refl eq_refl Hm Hin Hl) as [l [Hr [Hkey [Ht Hh]]]].
+      rewrite (getl_some _ _ _ Hr) in Hl.
+      apply (ul_body_JR s xt xe conn _ k cr l m); auto.
+    + destruct (has (c_flag c) UNLOCK_FLAG_CANCEL_WAIT); [apply (cancel_wait_lock_JR s xt xe); auto|apply Herr; auto].
+Qed.
